@@ -128,11 +128,15 @@ func TestC16_DeviceHistories(t *testing.T) {
 
 func TestC17_PARHistories(t *testing.T) {
 	runEngine(t, "C17", EngCfg{
-		Weights: map[string]int{"parPush": 4, "parUse": 8, "advance": 2, "redeem": 2},
+		Weights: map[string]int{"parPush": 4, "parUse": 8, "advance": 2, "redeem": 2, "authorize": 1},
 		Stores:  []string{"mem", "tx"}, JWT: []bool{false}, RefreshScopeModes: []int{0},
 		Flows: []string{"code"}, ShortLived: true,
+		MutateDraw: func(rt *rapid.T, c *fosite.Config) {
+			c.IsPushedAuthorizeEnforced = rapid.IntRange(0, 2).Draw(rt, "parEnforced") == 0
+			c.PushedAuthorizeRequestURIPrefix = rapid.SampledFrom([]string{"", "", "urn:custom:par:", "https://as.example/par/"}).Draw(rt, "parPrefix")
+		},
 	}, func(l map[string]bool) bool {
-		return anyPrefix(l, "par-refused:") || l["par-use-with-conflicting-query"] && l["par-use-ok"]
+		return anyPrefix(l, "par-refused:") || l["par-use-with-conflicting-query"] && l["par-use-ok"] || l["par-push-invalid"] || anyPrefix(l, "par-use-unknown") || anyPrefix(l, "par-use-foreign") || anyPrefix(l, "par-use-mutated")
 	})
 }
 
